@@ -529,6 +529,21 @@ def run_shard(shard):
                 acc.c["nontrivial"] += 1
         acc.sample({"state": [str(shard["left"][0][0]), obs.iso(shard["left"][0][1])], "accessors": len(ACCESSORS),
                     "pairs_against": len(shard["all"])})
+    elif k == "extreme-offsets":
+        # zones up to 26 h (real zones) and 48 h (fixed offsets) apart, at the same and at nearby instants: calendar dates one or
+        # two days apart say nothing about the order of the instants
+        zs = ["Etc/GMT+12", "Pacific/Pago_Pago", "Pacific/Kiritimati", "Pacific/Apia", "UTC", -(23 * 3600 + 59 * 60), 23 * 3600 + 59 * 60]
+        base = 1704195000 * US     # 2024-01-02T11:30:00Z
+        insts = [base + dx * US for dx in (0, 1, -1, 3600, -3600, 86400 - 60, 90000, -90000, 47 * 3600, 49 * 3600)] + [base + 1, base - 1]
+        for zx in zs:
+            for ix in insts[:4] + insts[-2:]:
+                acc.c["states"] += 1
+                for zy in zs:
+                    for iy in insts:
+                        with worker.guarded(acc, "compare", {"kind": "pair", "zx": zx, "ix": ix, "zy": zy, "iy": iy}):
+                            check_pair(acc, pendulum, zx, ix, zy, iy)
+                        acc.c["nontrivial"] += 1
+        acc.sample({"extreme_offset_zones": [str(z) for z in zs]})
     elif k == "dates":
         ns = shard["days"]
         for n1 in shard["left"]:
@@ -591,6 +606,7 @@ def plan(tier, seed):
               -2208988800 + 3600]
     for tzn in ("America/New_York", "Asia/Tokyo", "Australia/Lord_Howe"):
         shards.append({"kind": "machine-zone", "tz": tzn, "stamps": stamps})
+    shards.append({"kind": "extreme-offsets"})
     shards.append({"kind": "machine-zone-env", "stamps": [s_ for s_ in stamps if s_ == int(s_)]})
     return [({"ext": 1, "tz": "sys"}, shards)]
 
